@@ -89,14 +89,14 @@ FLOORS = {
     "quick": {
         "events": dict(_EV_Q, **_EV_X),
         "classes": dict({c: 24 for c in CLASSES}, srswor_exhaustive=275, comb_exhaustive=130, hostile_uniforms=40),
-        "stats": {"sample-tuples-driven": 2400, "quadrature-points": 6000000},
+        "stats": {"sample-tuples-driven": 2400, "quadrature-points": 6000000, "importance:density-is-proposal-object": 150},
         "sets": {"estimator-configurations": 170, "srswor-total-given": 28},
         "distinct": 500,
     },
     "thorough": {
         "events": dict({k: v * 25 for k, v in _EV_Q.items()}, **{k: v * 4 for k, v in _EV_X.items()}),
         "classes": dict({c: 1200 for c in CLASSES}, srswor_exhaustive=275, comb_exhaustive=140, hostile_uniforms=2000),
-        "stats": {"sample-tuples-driven": 100000, "quadrature-points": 250000000},
+        "stats": {"sample-tuples-driven": 100000, "quadrature-points": 250000000, "importance:density-is-proposal-object": 5000},
         "sets": {"estimator-configurations": 400, "srswor-total-given": 28},
         "distinct": 20000,
     },
@@ -203,7 +203,10 @@ def _gen_estimator(rng, cls):
     if est == "importance":
         case["theta_q"] = _gen_theta(rng, fam, shape, kind)
         case["kind_q"] = kind
-        case["density"] = rng.choice(["distribution", "wrapper"])
+        case["density"] = rng.choice(["distribution", "wrapper", "same_object"])
+        if case["density"] == "same_object":
+            # the very same distribution object is proposal and target (plain score-function estimator)
+            case["theta_q"] = case["theta"]
     return case
 
 
@@ -505,12 +508,16 @@ def _exec_estimator(case, mon):
                         cvm = cvm.detach()
                 e = mon.lib(name, E.DirectEstimator, prop, func, N, cv, cvm, is_log)
             else:
-                leaf_q = torch.tensor(case["theta_q"], dtype=dtype, requires_grad=True)
-                leaves.append(leaf_q)
-                prop = S.build(fam, case["kind_q"], shape, leaf_q, scripted=True)
-                dens = S.build(fam, kind, shape, leaf)
-                if case["density"] == "wrapper":
-                    dens = _DensityWrapper(dens)
+                if case["density"] == "same_object":
+                    prop = dens = S.build(fam, kind, shape, leaf, scripted=True)
+                    mon.stat("importance:density-is-proposal-object")
+                else:
+                    leaf_q = torch.tensor(case["theta_q"], dtype=dtype, requires_grad=True)
+                    leaves.append(leaf_q)
+                    prop = S.build(fam, case["kind_q"], shape, leaf_q, scripted=True)
+                    dens = S.build(fam, kind, shape, leaf)
+                    if case["density"] == "wrapper":
+                        dens = _DensityWrapper(dens)
                 e = mon.lib(name, E.ImportanceSamplingEstimator, prop, func, N, dens, False, is_log)
             prop._vmon["queue"] = [batch]
         r = mon.lib(name + ".__call__", e)
@@ -552,7 +559,7 @@ def _exec_estimator(case, mon):
             acc_v += w * vals
             for j in range(nout):
                 acc_g[j] += w * grads[j][0]
-                if est == "importance":
+                if est == "importance" and len(grads[j]) > 1:
                     gq = grads[j][1]
                     mon.check(bool((gq == 0).all()), "importance-proposal-gradient-zero", observed=gq,
                               sample=list(idxs), output=j)
